@@ -717,3 +717,63 @@ func c01Probe() {
 	}
 	rootHandleEnum.Write([]byte("probe-raw\n"))
 }
+
+// Indexed element lists of every length 1..13 (two-digit indexes sort differently as strings): a logger with
+// n appender references written as appenderRef[0] .. appenderRef[n-1] resolves all n of them (one event
+// reaches each of the n appenders exactly once), an index gap or a reference to a missing appender at ANY
+// position is an error.
+func init() {
+	type listCase struct {
+		N   int    `json:"n"`
+		Mut string `json:"mutation"` // "" | "dangling@k" | "bad-level@k"
+		K   int    `json:"k"`
+	}
+	definePart("C15", "c15/indexed-lists", "qt", "appenderRef[0..n-1] for n = 1..13: all resolved; a dangling reference or an ill-typed level at every position k is rejected",
+		func(tier string, yield func(listCase)) {
+			for n := 1; n <= 13; n++ {
+				yield(listCase{n, "", 0})
+				for k := 0; k < n; k++ {
+					yield(listCase{n, "dangling", k})
+					yield(listCase{n, "bad-level", k})
+				}
+			}
+		},
+		func(c listCase) (string, []Violation, int) {
+			confReset()
+			conf := map[string]string{"logger.root.type": "Logger", "logger.root.level": "INFO"}
+			for i := 0; i < c.N; i++ {
+				conf[fmt.Sprintf("appender.il%d.type", i)] = "Rec"
+				conf[fmt.Sprintf("logger.root.appenderRef[%d].ref", i)] = fmt.Sprintf("il%d", i)
+			}
+			key := fmt.Sprintf("n=%d %s@%d", c.N, c.Mut, c.K)
+			switch c.Mut {
+			case "dangling":
+				conf[fmt.Sprintf("logger.root.appenderRef[%d].ref", c.K)] = "nowhere"
+			case "bad-level":
+				conf[fmt.Sprintf("logger.root.appenderRef[%d].level", c.K)] = "not-a-level"
+			}
+			err, pn := safeRefresh(conf)
+			var v []Violation
+			if pn != nil {
+				return "panic", []Violation{{Clause: "refresh-panicked", Key: key, Detail: fmt.Sprint(pn)}}, 1
+			}
+			if c.Mut != "" {
+				if err == nil {
+					v = append(v, Violation{Clause: "bad-config-accepted", Key: key, Detail: fmt.Sprintf("Refresh accepted a list of %d references whose entry [%d] is %s", c.N, c.K, c.Mut)})
+				}
+				safeCall(log.Destroy)
+				return "rejected", v, 1
+			}
+			if err != nil {
+				return "err", []Violation{{Clause: "valid-config-rejected", Key: key, Detail: err.Error()}}, 1
+			}
+			log.Info(context.Background(), tagC01, log.Msg("il-event"))
+			log.Destroy()
+			for i := 0; i < c.N; i++ {
+				if got := len(recStore[fmt.Sprintf("il%d", i)]); got != 1 {
+					v = append(v, Violation{Clause: "attribute-value", Key: key, Detail: fmt.Sprintf("appender il%d, referenced as appenderRef[%d] of %d, received the event %d time(s)", i, i, c.N, got)})
+				}
+			}
+			return fmt.Sprint(c.N), v, c.N
+		})
+}
